@@ -671,7 +671,7 @@ def _check_custody(prog: Program, res: Result):
                 hwork.append((fi, r[1]))
     res.count("custody_sites", n_sites + seen_calls + n_hold)
     if not any(f.rule == "R19.5" for f in res.findings):  # a broken link ends the walk up the callers: the count is only meaningful on an intact chain
-        res.floor("custody_sites", 12)
+        res.floor("custody_sites", 10)
     for q_ in sorted({k[0] for k in carriers}):
         res.analysed(q_)
 
